@@ -529,7 +529,12 @@ class C13(core.Check):
         "against the geometry given at the start), variants (positions typed by hand: lists / tuples, whole numbers as "
         "ints), micro (the lattice with 0.05..0.2 mm cells), rejected (link candidates whose follower is no grid point "
         "are refused, the error is caught, then optimize), "
-        "boundary (0 iterations, no clamps, auto_optimize). Non-trivial = at least one accepted (improved) step or a "
+        "boundary (0 iterations, no clamps, auto_optimize; 0 iterations with the report on), defaults (optimize() without "
+        "arguments), driver (no optimiser run: a real IterationDriver fed with begin / end_iteration calls - limits -1..20, "
+        "tolerances incl. 0, negative, > 1, equal qualities, differences below VSMALL, worse iterations, start quality 0, "
+        "end before begin - and a real ClampOptimizationData put through final values / rollback / skip / undo); every "
+        "second case runs with report=True and its printed summary line is compared and judged. "
+        "Non-trivial = at least one accepted (improved) step or a "
         "rollback / skip; distinct = different case description."
     )
     assumptions = [
@@ -552,7 +557,11 @@ class C13(core.Check):
         "/ T_C13_bounds (C17 proves the manifold part for the library's clamps); the harness checks manifold "
         "membership, bounds and link relations numerically on the implementation. Quality-not-worse on the "
         "implementation is compared with a slack (see assumptions); the exact statement for a not yet consistent "
-        "initial state is T_C13_noworse_general."
+        "initial state is T_C13_noworse_general. Round 6: the driver / reporter model (IterationDriver, ClampOptimizationData, "
+        "summary block) is over Q, the implementation computes in floats (compared to 1e-9 relative, the printed summary to 4 "
+        "digits); T_C13_tie_statements is a textual snapshot of the control methods (trip-wire), the other T_C13_tie_* are "
+        "semantic; add_clamp / add_link between two optimize() calls and exceptions other than ValueError inside the "
+        "minimiser have no theorem."
     )
 
     # ------------------------------------------------------------------ generators
@@ -561,6 +570,15 @@ class C13(core.Check):
             d = [rng.randint(-4, 4) / 4 for _ in range(3)]
             if sum(abs(x) for x in d) >= 0.5:
                 return d
+
+    def _rand_dir_indep(self, rng: random.Random, e1: List[float]) -> List[float]:
+        """a second frame direction that is not (nearly) parallel to the first: e1, e2 span the local frame of a
+        curve / surface clamp (round 6: two parallel draws gave a frame of NaNs in the judge and a false alarm)"""
+        while True:
+            e2 = self._rand_dir(rng)
+            cr = [e1[1] * e2[2] - e1[2] * e2[1], e1[2] * e2[0] - e1[0] * e2[2], e1[0] * e2[1] - e1[1] * e2[0]]
+            if sum(x * x for x in cr) >= 1 / 16:
+                return e2
 
     def _gen_valid(self, rng: random.Random, tier: str, stream: str = "valid") -> dict:
         kind = "mesh" if rng.random() < 0.55 else "sketch"
@@ -623,10 +641,11 @@ class C13(core.Check):
                         spec["bounds"] = [-rng.randint(1, 3) / 8, rng.randint(1, 3) / 8]
                 elif t == "curve":
                     e1 = self._rand_dir(rng)
-                    e2 = self._rand_dir(rng)
+                    e2 = self._rand_dir_indep(rng, e1)
                     spec.update({"e1": e1, "e2": e2, "a": rng.randint(-4, 4) / 8, "bounds": [-rng.randint(2, 4) / 8, rng.randint(2, 4) / 8]})
                 elif t == "surface":
-                    spec.update({"e1": self._rand_dir(rng), "e2": self._rand_dir(rng), "c": rng.randint(-4, 4) / 8})
+                    e1 = self._rand_dir(rng)
+                    spec.update({"e1": e1, "e2": self._rand_dir_indep(rng, e1), "c": rng.randint(-4, 4) / 8})
                     if rng.random() < 0.5:
                         spec["bounds"] = [[-0.375, 0.375], [-0.25, 0.5]]
             clamps.append(spec)
@@ -998,7 +1017,7 @@ class C13(core.Check):
         for _ in range(1 if tier == "quick" else 5):
             cases += self._gen_boundary(rng, tier)
         # round 6 (drawn last: the cases above are the ones earlier rounds saw for the same seed)
-        cases += [self._gen_defaults(rng, tier) for _ in range(2 if tier == "quick" else 16)]
+        cases += [self._gen_defaults(rng, tier) for _ in range(1 if tier == "quick" else 10)]
         c = self._gen_valid(rng, tier, "boundary")
         c.update({"max_iterations": 0, "report": True})
         cases.append(c)
@@ -1534,6 +1553,19 @@ class C13(core.Check):
         if impl["q1"] is None or impl["q1"] > impl["q0"] + Q_REL * abs(impl["q0"]) + Q_ABS:
             if not overlap:
                 out.append({"site": "optimize:quality-worse", "what": f"grid quality {impl['q0']} -> {impl['q1']}", "observed": impl["q1"], "expected": f"<= {impl['q0']}"})
+        # 1b. the summary optimize() prints is truthful: start / end are the grid quality before / after, the
+        # improvement is their difference (4 digits are printed)
+        sm = impl.get("summary")
+        if sm and impl["q1"] is not None:
+            try:
+                ps, pe, pa = float(sm[0]), float(sm[1]), float(sm[2])
+                want = impl["q0"] - impl["q1"]
+                bad = (abs(ps - impl["q0"]) > 1e-3 * abs(impl["q0"]) or abs(pe - impl["q1"]) > 1e-3 * abs(impl["q1"])
+                       or abs(pa - want) > 1e-3 * abs(want) + 1e-12)
+            except ValueError:
+                bad = True
+            if bad:
+                out.append({"site": "optimize:summary-not-initial-minus-final", "what": f"printed 'Overall improvement: {sm[0]} > {sm[1]}({sm[2]}, {sm[3]}%)' for grid quality {impl['q0']} -> {impl['q1']}", "observed": sm, "expected": f"{impl['q0']:.3e} > {impl['q1']:.3e}({impl['q0'] - impl['q1']:.3e}, …)"})
         # 2. frame: neither clamped nor follower of a clamped leader -> bit-identical
         # which vertices may move is taken from the CASE (vertex that was clamped, links that were added), not from
         # what the implementation registered
